@@ -137,7 +137,8 @@ let err_s = function
 (* ------------------------------------------------------------------------------------------------
    CbCall (coq/C08/Kinds.v): programs whose results / parameters / locals are of every kind.
      prog  := (K (glob ..) (func ..) (stmt ..))            glob := (g NAME INT)
-     func  := (F NAME kind meth (param ..) (stmt ..))      meth := 0|1 (method of S0: param 0 is the receiver `self`)
+     func  := (F NAME kind via (param ..) (stmt ..))       via := 0 plain | 1 method of S0 (param 0 is the receiver `self`)
+                                                                  | 2 called through a function pointer q(..) | 3 through ( *q )(..)
      kind  := long|int|bool|str|dbl|flt|quad|struct|arr|ref|void
      param := (NAME kind) | (NAME kind INT)                (default: payload of a literal)
      expr  := INT | (lit kind INT) | (v N) | (get N) | (bin OP a b) | (call F e ..)
@@ -174,7 +175,7 @@ let kparam_of = function
   | _ -> failwith "kparam"
 let kfunc_of = function
   | L [A "F"; n; r; m; ps; body] ->
-      { kfname = nat_a n; kfret = kind_of_s (atom r); kfmeth = bool_a m; kfparams = List.map kparam_of (list_of ps); kfbody = kstmts_of body }
+      { kfname = nat_a n; kfret = kind_of_s (atom r); kfvia = nat_a m; kfparams = List.map kparam_of (list_of ps); kfbody = kstmts_of body }
   | _ -> failwith "kfunc"
 let kprog_of gs fs m =
   { kpglob = List.map (function L [A "g"; n; z] -> (nat_a n, z_of_string (atom z)) | _ -> failwith "kglob") (list_of gs);
@@ -193,6 +194,9 @@ let kfn n = "f" ^ string_of_int (int_of_nat n)
 let binop_s = function
   | Add -> "+" | Sub -> "-" | Mul -> "*" | Div -> "/" | Mod -> "%" | BAnd -> "&" | BOr -> "|" | BXor -> "^"
   | Shl -> "<<" | Shr -> ">>" | Lt0 -> "<" | Le -> "<=" | Gt0 -> ">" | Ge -> ">=" | Eq0 -> "==" | Ne -> "!="
+
+let is_meth fd = int_of_nat fd.kfvia = 1
+let via_ptr fd = int_of_nat fd.kfvia >= 2
 
 let print_kprog (p : kprog) : string =
   let b = Buffer.create 1024 in
@@ -227,10 +231,13 @@ let print_kprog (p : kprog) : string =
     | KGet x -> (match kind_of_var env x with KArr -> kvar x ^ "[0]" | _ -> kvar x ^ ".a")
     | KBin (o, a, c) -> "( " ^ pe env a ^ " " ^ binop_s o ^ " " ^ pe env c ^ " )"
     | KCall (f, args) ->
-        let meth = (match fd_of f with Some fd -> fd.kfmeth | None -> false) in
-        (match meth, args with
-         | true, r :: rest -> pe env r ^ "." ^ kfn f ^ "( " ^ String.concat " , " (List.map (pe env) rest) ^ " )"
-         | _ -> kfn f ^ "( " ^ String.concat " , " (List.map (pe env) args) ^ " )") in
+        let via = (match fd_of f with Some fd -> int_of_nat fd.kfvia | None -> 0) in
+        let al l = "( " ^ String.concat " , " (List.map (pe env) l) ^ " )" in
+        (match via, args with
+         | 1, r :: rest -> pe env r ^ "." ^ kfn f ^ al rest
+         | 2, _ -> "q" ^ string_of_int (int_of_nat f) ^ al args
+         | 3, _ -> "( *q" ^ string_of_int (int_of_nat f) ^ " )" ^ al args
+         | _ -> kfn f ^ al args) in
   let rec ps env ind st =
     let line s = add ind; add s; add "\n" in
     let block ss = List.iter (ps env (ind ^ "  ")) ss in
@@ -264,28 +271,50 @@ let print_kprog (p : kprog) : string =
     | KRet (Some e) -> line ("return " ^ pe env e ^ " ;")
     | KPrint args ->
         let one (k, e) = match k, e with
-          | KStruct, _ -> pe env e ^ ".a"
-          | KArr, _ -> pe env e ^ "[0]"
+          | KStruct, KVar _ -> pe env e ^ ".a , " ^ pe env e ^ ".b"
+          | KStruct, _ -> pe env e ^ ".a , 7"
+          | KArr, _ -> pe env e ^ "[0] , " ^ pe env e ^ "[1]"
           | _ -> pe env e in
         line ("println( " ^ String.concat " , " (List.map one args) ^ " ) ;") in
   let pparam defs pa =
     ktype pa.kpk ^ " " ^ kvar pa.kpn ^
     (match (if defs then pa.kpd else None) with Some z -> " = " ^ pe (Hashtbl.create 1) (match pa.kpk with KLong | KInt -> KNum z | k -> KLit (k, z)) | None -> "") in
-  let sig_of ?(defs = true) fd = let ps_ = if fd.kfmeth then List.tl fd.kfparams else fd.kfparams in
+  let sig_of ?(defs = true) fd = let ps_ = if is_meth fd then List.tl fd.kfparams else fd.kfparams in
     ktype fd.kfret ^ " " ^ kfn fd.kfname ^ "( " ^ String.concat " , " (List.map (pparam defs) ps_) ^ " )" in
+  (* the functions a body calls through a pointer: `long* q<n> = &f<n> ;` at the top of that body *)
+  let ptr_targets (body : kstmt list) =
+    let acc = ref [] in
+    let rec ex = function
+      | KBin (_, a, c) -> ex a; ex c
+      | KCall (f, args) ->
+          (match fd_of f with Some fd when via_ptr fd -> let i = int_of_nat f in if not (List.mem i !acc) then acc := i :: !acc | _ -> ());
+          List.iter ex args
+      | _ -> () in
+    let rec st = function
+      | KDecl (_, _, _, e) | KAsg (_, e) | KExpr e | KTry (_, e) -> ex e
+      | KIf (c, a, d) -> ex c; List.iter st a; List.iter st d
+      | KFor (_, n, body) | KLoop (_, n, body) -> ex n; List.iter st body
+      | KRet (Some e) -> ex e
+      | KRet None -> ()
+      | KPrint args -> List.iter (fun (_, e) -> ex e) args in
+    List.iter st body; List.sort compare !acc in
+  let pptrs ind body =
+    List.iter (fun i -> add ind; add ("long* q" ^ string_of_int i ^ " = &f" ^ string_of_int i ^ " ;\n")) (ptr_targets body) in
   let pfunc ind fd =
     add ind; add (sig_of fd); add " {\n";
     let env = env_of fd.kfparams fd.kfbody in
+    pptrs (ind ^ "  ") fd.kfbody;
     List.iter (ps env (ind ^ "  ")) fd.kfbody; add ind; add "}\n" in
   add "struct S0 { long a ; long b ; } ;\n";
   List.iter (fun (g, z) -> add ("long " ^ kvar g ^ " = " ^ zs z ^ " ;\n")) p.kpglob;
-  let meths = List.filter (fun fd -> fd.kfmeth) p.kpfuncs in
+  let meths = List.filter is_meth p.kpfuncs in
   if meths <> [] then begin
     add "interface I0 {\n"; List.iter (fun fd -> add ("  " ^ sig_of ~defs:false fd ^ " ;\n")) meths; add "} ;\n";
     add "impl I0 for S0 {\n"; List.iter (pfunc "  ") meths; add "} ;\n"
   end;
-  List.iter (fun fd -> if not fd.kfmeth then pfunc "" fd) p.kpfuncs;
+  List.iter (fun fd -> if not (is_meth fd) then pfunc "" fd) p.kpfuncs;
   add "void main() {\n";
+  pptrs "  " p.kpmain;
   let env = env_of [] p.kpmain in
   List.iter (ps env "  ") p.kpmain; add "}\n";
   Buffer.contents b
@@ -293,7 +322,7 @@ let print_kprog (p : kprog) : string =
 let render_k (o : kitem list) : string =
   String.concat "" (List.map (function
     | KOSp -> " " | KONl -> "\n"
-    | KOVal (k, z) -> (match k with KStr -> "s" ^ zs z | KDbl | KFlt | KQuad -> zs z ^ ".5" | _ -> zs z)) o)
+    | KOVal (k, z) -> (match k with KStr -> "s" ^ zs z | KDbl | KFlt | KQuad -> zs z ^ ".5" | KArr | KStruct -> zs z ^ " 7" | _ -> zs z)) o)
 
 let () =
   let fuel = nat_of_int (if Array.length Sys.argv > 1 then int_of_string Sys.argv.(1) else 4000) in
